@@ -2035,7 +2035,7 @@ impl InferContext {
         let (TypedPattern { pat, ty, .. }, loc_p) = pat;
         let (body_t, loc_b) = body.clone();
         let should_generalize =
-            !matches!(&pat, Pattern::Single(id) if *id == "record_update_temp".to_symbol());
+            !matches!(&pat, Pattern::Single(id) if *id == "record_update$temp".to_symbol());
         let mut bind_item = |pat| {
             let newloc = ty.to_loc();
             let ity = self.gen_intermediate_type_with_location(newloc.clone());
